@@ -382,7 +382,8 @@ impl Tok {
                 None
             })
         }));
-        e.cost_estimate().budget().reset_unlimited();
+        let (cpu, mem) = envx::budget_limits();
+        e.cost_estimate().budget().reset_limits(cpu, mem);
         r.map_err(panic_text)
     }
 
